@@ -1099,9 +1099,13 @@ class Interp:
             return None
         gen = g.generators[0]
         elt = g.elt
+        tv = gen.target.id
+        if isinstance(elt, ast.Compare) and len(elt.ops) == 1 and isinstance(elt.ops[0], ast.Eq) and f.id == "any":
+            r_ = self._symbolic_any_item_eq(elt, gen, tv, st, ctx)
+            if r_ is not None:
+                return r_
         if not (isinstance(elt, ast.Compare) and len(elt.ops) == 1 and isinstance(elt.ops[0], (ast.Is, ast.IsNot))):
             return None
-        tv = gen.target.id
         l, r = elt.left, elt.comparators[0]
         if isinstance(l, ast.Name) and l.id == tv:
             other = r
@@ -1135,6 +1139,53 @@ class Interp:
                     form = z3.Not(mem)      # all(v is not X for v in S)
                 out.append((z, BoolV(form)))
         return out
+
+    def _symbolic_any_item_eq(self, elt, gen, tv, st, ctx):
+        """any(X == v[k] for v in S) / any(v[k] == X for v in S) over a heap list S of unknown
+        length: `has_item_eq(S, k, X)` — "some entry of S has an item k equal (==) to X"."""
+        def is_item(n):
+            return (isinstance(n, ast.Subscript) and isinstance(n.value, ast.Name) and n.value.id == tv
+                    and isinstance(n.slice, ast.Constant) and isinstance(n.slice.value, int) and n.slice.value >= 0)
+        l, r = elt.left, elt.comparators[0]
+        if is_item(l):
+            item, other = l, r
+        elif is_item(r):
+            item, other = r, l
+        else:
+            return None
+        if any(isinstance(n, ast.Name) and n.id == tv for n in ast.walk(other)):
+            return None
+        out = []
+        for (q, itv) in self.eval(gen.iter, st, ctx):
+            if isinstance(itv, Raise):
+                out.append((q, itv))
+                continue
+            if not (isinstance(itv, Ref) and q.heap[itv.oid].kind == "list") or q.heap[itv.oid].fields.get("$items") is not None:
+                return None
+            seq = q.heap[itv.oid].seq
+            for (z, ov) in self.eval(other, q, ctx):
+                if isinstance(ov, Raise):
+                    out.append((z, ov))
+                    continue
+                self.stats["dropped"].add("entries of a list searched with any(X == v[k] …) are taken to be indexable at k")
+                out.append((z, BoolV(self.has_item_eq(z, seq, item.slice.value, ov))))
+        return out
+
+    def has_item_eq(self, st, seq, k, xval):
+        """∃ e ∈ seq. e[k] == X, expanded along the structure of the sequence term (`++`, `[e]`,
+        `[]`); an opaque sequence gives the uninterpreted has_item<k>_eq(seq, X)."""
+        if z3.is_app(seq):
+            kind = seq.decl().kind()
+            if kind == z3.Z3_OP_SEQ_CONCAT:
+                return z3.Or([self.has_item_eq(st, c, k, xval) for c in seq.children()])
+            if kind == z3.Z3_OP_SEQ_EMPTY:
+                return z3.BoolVal(False)
+            if kind == z3.Z3_OP_SEQ_UNIT:
+                it = vm.titem(seq.arg(0), k)
+                self.U.well_typed(it)
+                r = self.py_eq(st, Sym(it), xval)
+                return z3.BoolVal(r) if isinstance(r, bool) else r
+        return vm.has_item_eq(k)(seq, self.term(xval))
 
     def ex_Call(self, e, st, ctx):
         r_ = self._symbolic_anyall(e, st, ctx)
